@@ -615,6 +615,33 @@ pub fn run(tier: &str) -> i32 {
         drop(vs);
         fams.push(json!({"part": "reader/replica-histories", "family": name, "depth": depth, "complete_histories": leaves}));
     }
+    // (b') page scale: bitfield files of more than one 4096-byte page, trees of 65k nodes
+    {
+        let mut bigs: Vec<Vec<Op>> = vec![
+            vec![Op::BatchN(8193), Op::Clear(8190, 8194), Op::Reopen, Op::Append(Blk::P(3, 1))],
+            vec![Op::BatchN(32769), Op::Clear(32766, 32770), Op::Append(Blk::P(2, 1)), Op::Reopen],
+        ];
+        if !quick {
+            bigs.push(vec![Op::BatchN(32768), Op::BatchN(32768), Op::Append(Blk::P(3, 1)), Op::Clear(65534, 65538), Op::Reopen, Op::Clear(100, 40000), Op::Reopen]);
+            bigs.push(vec![Op::BatchN(40000), Op::MakeReadOnly, Op::Clear(32760, 32780), Op::Reopen]);
+        }
+        let nb = bigs.len();
+        let idx = std::sync::atomic::AtomicUsize::new(0);
+        let bigs_ref = &bigs;
+        std::thread::scope(|sc| {
+            for _ in 0..nthreads().min(nb) {
+                sc.spawn(|| loop {
+                    let i = idx.fetch_add(1, std::sync::atomic::Ordering::Relaxed);
+                    if i >= nb {
+                        break;
+                    }
+                    let mut v = ReaderVisitor { rep: &rep, stats: &stats, states: &states, local: BTreeMap::new() };
+                    super::c01::run_all_prefixes(&bigs_ref[i], &mut v);
+                });
+            }
+        });
+        fams.push(json!({"part": "reader/page-scale-histories", "histories": nb}));
+    }
     // (c)
     let cases = synth_cases(quick);
     let idx = std::sync::atomic::AtomicUsize::new(0);
